@@ -4,6 +4,7 @@ package main
 
 import (
 	"fmt"
+	"go/ast"
 	"go/types"
 	"os"
 	"runtime/debug"
@@ -380,6 +381,46 @@ func (ex *Exec) verifyBody(fn *ssa.Function, fc *FuncContract) {
 		}
 		ex.frameCheck(final, "exit", "frame", "")
 		ex.vc.Cover("exit-reachable", final.pc, TTrue, "")
+		// every single return statement must be reachable under the contract's assumptions: an unreachable
+		// one means contradictory assumptions on that path (its postconditions would hold vacuously) - or code
+		// the preconditions really exclude, which the contract then has to say (`deadexit <source text>`)
+		if len(exits) > 1 && os.Getenv("GOVC_NO_EXIT_COVERS") == "" {
+			// name every return by its source text and its ordinal among the returns with the same text
+			// (in source order), so that the names survive unrelated edits
+			type rx struct {
+				e   exitInfo
+				txt string
+			}
+			var rs []rx
+			for _, e := range exits {
+				txt := squeeze(ex.srcText(e.pos, func(n ast.Node) bool { _, ok := n.(*ast.ReturnStmt); return ok }))
+				if len(txt) > 60 {
+					txt = txt[:60]
+				}
+				if txt == "" {
+					txt = "end of function"
+				}
+				rs = append(rs, rx{e, txt})
+			}
+			sort.SliceStable(rs, func(i, j int) bool { return rs[i].e.pos < rs[j].e.pos })
+			seen := map[string]int{}
+			for _, r := range rs {
+				seen[r.txt]++
+				name := r.txt
+				if seen[r.txt] > 1 {
+					name = fmt.Sprintf("%s (occurrence %d)", r.txt, seen[r.txt])
+				}
+				dead := false
+				for _, d := range fc.DeadExits {
+					if d == name {
+						dead = true
+					}
+				}
+				if !dead {
+					ex.vc.Cover("return-reachable:"+name, r.e.st.pc, TTrue, ex.posString(r.e.pos))
+				}
+			}
+		}
 	}
 }
 
